@@ -108,8 +108,9 @@ def find_lexicons(
         order = ''
         limit = '-1'
         if ':' not in specifier:
-            if '*' not in specifier:
+            if not any(c in specifier for c in '*?['):
                 # a bare id selects the most recently added lexicon with that id
+                # (a pattern with any glob character selects all its matches)
                 order = 'ORDER BY rowid DESC'
                 limit = '1'
             specifier += ':*'
